@@ -360,6 +360,16 @@ fn eval_instructions_with_output(
                     CommandResult::GoTo(output, goto_value) => {
                         flow_output = output.clone();
 
+                        // same as the runner: the output variable of the line takes the value that
+                        // comes with the jump (a function call starts with none: the variable is
+                        // undefined until the function returns one)
+                        if let Some(ref output_variable) = script_instruction.output {
+                            match output {
+                                Some(value) => variables.insert(output_variable.to_string(), value),
+                                None => variables.remove(output_variable),
+                            };
+                        }
+
                         match goto_value {
                             GoToValue::Label(_) => {
                                 flow_result = Some(CommandResult::Error(
